@@ -94,7 +94,8 @@ class C15:
             "A quarter of the runs are keyed maps instead: exception_time_series over map_ whose child throws on a magic element, alone or "
             "below a self-scheduling node with a timer pending in the throwing cycle; oracle: error ticks under the failing key only, at the "
             "throwing cycle, with the message; every key's stream equals that key's solo reference (later cycles evaluate normally). "
-            "evaluations = injected runs; non-trivial = a planned fault fired; distinct = distinct (program, plan)")
+            "evaluations = injected runs; non-trivial = a planned fault fired; distinct = distinct (program, plan)"
+            " Round 3: functions lifted with lift<F>() are capture targets too.")
     exhaustive_note = "per capturing target with <= 5 evaluations the subset enumeration is complete; programs and larger subsets are sampled"
     assumptions = ["the failing node's own ordinary output in a throwing cycle is unspecified (documented): the vocabulary throws before writing"]
 
